@@ -367,6 +367,7 @@ def genOp (op : String) (pat : String) (args : List String) : Option String := d
   | "u.swap", [b] => pure (showBytes (utils_SwapEndianness (← parseBytes? b)))
   | "u.infield", [v] => pure (showBool (utils_CheckBigIntInField (← parseInt? v)))
   | "u.arrinfield", [l] => pure (showBool (utils_CheckBigIntArrayInField (← parseIntList? l)))
+  | "u.elemarr", [l] => pure (showList toString (utils_ElementArrayToBigIntArray (utils_BigIntArrayToElementArray (← parseIntList? l))))
   | _, _ =>
     if op.startsWith "ff." then limbOp true (op.drop 3).toString args
     else if op.startsWith "ffg." then limbOp false (op.drop 4).toString args
